@@ -556,21 +556,29 @@ def op_hc(step, ctx):
 
 
 def op_hc_decorated(step, ctx):
-    """Run sub-steps inside a function wrapped by high_compatibility_mode_decorator."""
+    """Run sub-steps inside a function wrapped by high_compatibility_mode_decorator. With depth > 1 the decorated function
+    calls itself (re-entered while running): one enter / exit event per level, the flag observed after each."""
     from dliswriter.utils.high_compatibility_mode import high_compatibility_mode_decorator
-    events = [{'op': 'hc_enter', 'outcome': 'ok', 'hc': True, 'decorator': True}]
+    events = []
     boom = step.get('raise_inside', False)
+    depth = int(step.get('depth', 1))
 
     @high_compatibility_mode_decorator
-    def body():
-        events[0]['hc'] = hc_flag()
+    def body(level):
+        events.append({'op': 'hc_enter', 'outcome': 'ok', 'hc': hc_flag(), 'decorator': True})
+        if level > 1:
+            try:
+                body(level - 1)
+            finally:
+                events.append({'op': 'hc_exit', 'outcome': 'ok', 'hc': hc_flag(), 'decorator': True})
+            return
         for st in step['steps']:
             events.extend(OPS[st['op']](st, ctx))
         if boom:
             raise KeyError('scenario exception inside the decorated function')
 
     try:
-        body()
+        body(depth)
     except KeyError:
         pass
     events.append({'op': 'hc_exit', 'outcome': 'ok', 'hc': hc_flag(), 'decorator': True})
@@ -702,9 +710,11 @@ def build_data(step, ctx):
     if route == 'h5':
         import h5py
         path = os.path.join(ctx['dir'], d.get('fname', 'data.h5'))
-        with h5py.File(path, 'w') as f:
+        # written beside the target and moved into place: a source file of an earlier write is *replaced*, not rewritten
+        with h5py.File(path + '.new', 'w') as f:
             for k, aid in amap.items():
                 f.create_dataset(k, data=np.ascontiguousarray(get_array(aid, ctx)))
+        os.replace(path + '.new', path)
         return path, [('h5file', path)], None
     if route == 'object':
         return object(), [], None
